@@ -97,7 +97,7 @@ def canonical(files):
         return names[tok]
     out = {}
     for k in sorted(files):
-        out[k] = re.sub(r"\b(_?[A-Za-z][A-Za-z_]*?)(\d+)\b", sub, files[k])
+        out[k] = re.sub(r"\b(_?[A-Za-z][A-Za-z0-9_]*?)(\d+)\b", sub, files[k])
     return out
 
 
@@ -159,6 +159,52 @@ def run_case(case):
     if r[0] == "ok":
         return {"outcome": "ok", "files": canonical(r[1]), "raw": r[1], "docker": r[2], "tree": r[3], "trace": trace}
     return {"outcome": "raised", "exc": r[1], "msg": r[2], "trace": trace}
+
+
+def run_shared_subtree(_case):
+    """Two queries built by the caller from ONE base AST object (they share sub-trees, as two func_adl queries built from a
+    common `base = ds.SelectMany(...)` do), each with its own collection declaration.  Returns the package of the second."""
+    import ast as _ast
+    import logging
+    import shutil
+    import tempfile
+    logging.disable(logging.CRITICAL)
+    from ..tv.translate import make_executor
+    shared = _case[0] == "shared"
+    md1 = dict(COLL, name="MyJets")
+    md2 = dict(COLL, name="MyJets", container_type="my::OtherContainer", element_type="my::Other", include_files=["my/Other.h"], link_libraries=["myOtherLib"])
+    base = _ast.parse("SelectMany(EventDataset('ds'), lambda e: e.MyJets('AntiKt4'))", mode="eval").body
+
+    def build(md, b):
+        inner = _ast.Call(func=_ast.Name(id="MetaData", ctx=_ast.Load()), args=[b.args[0], _ast.parse(repr(md), mode="eval").body], keywords=[])
+        sm = _ast.Call(func=b.func, args=[inner, b.args[1]], keywords=[])
+        return _ast.fix_missing_locations(_ast.Call(func=_ast.Name(id="Select", ctx=_ast.Load()), args=[sm, _ast.parse("lambda j: j.pt()", mode="eval").body], keywords=[]))
+
+    def translate(tree):
+        exe = make_executor("atlas")
+        d = Path(tempfile.mkdtemp(prefix="c07s"))
+        try:
+            exe.write_cpp_files(exe.apply_ast_transformations(tree), d)
+            return {"outcome": "ok", "files": canonical({p_.name: p_.read_text() for p_ in d.iterdir() if p_.is_file()})}
+        except Exception as e:  # noqa: BLE001
+            return {"outcome": "raised", "exc": type(e).__name__, "msg": str(e)[:200]}
+        finally:
+            shutil.rmtree(d, ignore_errors=True)
+    if shared:
+        translate(build(md1, base))                # first query: its translation must not change what the second one means
+        return translate(build(md2, base))
+    fresh_base = _ast.parse("SelectMany(EventDataset('ds'), lambda e: e.MyJets('AntiKt4'))", mode="eval").body
+    return translate(build(md2, fresh_base))
+
+
+def _wrap_shared(i):
+    try:
+        return run_shared_subtree(_SHARED_CASES[i])
+    except Exception as e:  # noqa: BLE001
+        return {"error": f"{type(e).__name__}: {e}"}
+
+
+_SHARED_CASES = [("fresh",), ("shared",)]
 
 
 def _wrap(i):
@@ -314,6 +360,22 @@ def main():
             rep.discharged += 1
         if len(samples) < 8 and h:
             samples.append({"history": h, "probe": p, "executor": pm, "outcome": r.get("outcome"), "same_as_fresh": problem is None})
+    # translation must not mutate the caller's AST: two queries sharing sub-trees, each in a fresh process
+    rep.obligations += 1
+    ctx_ = mp.get_context("fork")
+    with ctx_.Pool(2, maxtasksperchild=1) as pool_:
+        fr, sh_ = pool_.map(_wrap_shared, range(2), chunksize=1)
+    if "error" in fr or "error" in sh_:
+        rep.inconc("shared sub-tree scenario", fr.get("error") or sh_.get("error"))
+    elif fr != sh_:
+        d = REPLAYS / "C07" / "shared_subtree"
+        d.mkdir(parents=True, exist_ok=True)
+        diff = [k for k in (fr.get("files") or {}) if (sh_.get("files") or {}).get(k) != fr["files"][k]] if fr.get("outcome") == sh_.get("outcome") == "ok" else []
+        (d / "finding.json").write_text(json.dumps({"fresh": fr.get("outcome"), "after_first_query": sh_.get("outcome"), "files_differ": diff}, indent=1))
+        rep.violation("a query built from AST objects that an earlier query (same base sub-tree, another collection declaration) was also built from: "
+                      f"package differs from the one a fresh parse gives ({diff or (fr.get('outcome'), sh_.get('outcome'))}) - the earlier translation rewrote the shared nodes", d)
+    else:
+        rep.discharged += 1
     # supporting observation (not a solver claim): registries after each single operation vs the fresh state
     st = results[len(cases):]
     s0 = st[0].get("state", {})
